@@ -13,6 +13,8 @@ REPO = os.environ.get("VERIF_REPO", "/repo")
 SRC = os.path.join(REPO, "src")
 
 _cache = {}
+_origin = {}          # id(FunctionDef) -> (relpath, qualname) of every node handed out
+AUTO_RESOLVED = []    # (relpath, qualname) of helpers that were not named by a contract but resolved from the source
 
 
 def module_ast(relpath):
@@ -51,7 +53,36 @@ def get(relpath, qualname, index=0):
     found = [n for n in _find(mod.body, qualname.split(".")) if not (isinstance(n, ast.FunctionDef) and is_setter(n))]
     if not found:
         raise KeyError(f"{qualname} not found in {relpath}")
+    _origin[id(found[index])] = (relpath, qualname)
     return found[index]
+
+
+def sibling(nodes, name, method=False):
+    """A function the contract did not name (e.g. a helper a refactor extracted): look ``name`` up next to the
+    functions already under contract -- as a method of their classes when ``method``, else as a top-level
+    function of their modules.  -> FunctionDef | None"""
+    seen = set()
+    for n in nodes:
+        o = _origin.get(id(n))
+        if o is None or o in seen:
+            continue
+        seen.add(o)
+        relpath, qual = o
+        parts = qual.split(".")
+        cands = []
+        if method and len(parts) > 1:
+            cands.append(".".join(parts[:-1] + [name]))
+        if not method:
+            cands.append(name)
+        for q in cands:
+            try:
+                found = get(relpath, q)
+            except KeyError:
+                continue
+            if isinstance(found, ast.FunctionDef):
+                AUTO_RESOLVED.append((relpath, q))
+                return found
+    return None
 
 
 def get_all(relpath, qualname):
@@ -84,6 +115,7 @@ def class_functions(relpath, clsname, include_bases=()):
         for x in cls.body:
             if isinstance(x, ast.FunctionDef) and not is_setter(x) and x.name not in out:
                 out[x.name] = x
+                _origin[id(x)] = (relpath, f"{cn}.{x.name}")
                 if is_property(x):
                     props.add(x.name)
     return out, props
